@@ -44,6 +44,7 @@ func newSet(k sysKind) set {
 }
 
 func drive(next func() bool, value func() uint, max, mode int) (seq []uint, unstable bool) {
+	seq = make([]uint, 0, max+1)
 	for next() {
 		switch mode {
 		case 0:
